@@ -56,8 +56,9 @@ def nodeInterest (m : Meta) (nd : Node) (pend : Option Interest) : Interest × O
 
 /-- the stack is `registry().with(n₀.and_then(n₁).and_then(n₂)…)` — how stacks whose shape is
 only known at run time are built.  `Layered::register_callsite` of the and_then tree, nodes
-OUTERMOST first: the outer node registers first, then `pick_interest`.  Over the Registry
-`inner_has_subscriber_filter` is true at every node (`inner_is_registry`). -/
+OUTERMOST first: the outer node registers first, then `pick_interest`.  Inside the tree
+`inner_has_subscriber_filter` can only be true when every node below is a `Filtered`, and those
+answer `always` themselves, so the "inner never ⇒ sometimes" rule never fires here. -/
 def regTree (m : Meta) : List Node → Option Interest → Interest × Option Interest
   | [], pend => (.always, pend)                       -- (not reached: stacks are non-empty)
   | [nd], pend => nodeInterest m nd pend
@@ -68,7 +69,6 @@ def regTree (m : Meta) : List Node → Option Interest → Interest × Option In
     else
       let i := regTree m below r.2
       if r.1 = .sometimes then (.sometimes, i.2)
-      else if i.1 = .never then (.sometimes, i.2)
       else i
 
 /-- the top-level `Layered<Tree, Registry>::register_callsite`.  The tree counts as
